@@ -7,5 +7,6 @@ cd "$wt" || exit 2
 tests=$(CARGO_NET_OFFLINE=true cargo test --workspace --no-fail-fast --offline 2>&1 | grep -E "^test result" | head -1)
 echo "tests: $tests"
 bash "$out/demo.sh" "$wt/target/debug/fselect" >/dev/null 2>&1; m=$?
-bash "$out/demo.sh" /verif/.build/target/debug/fselect >/dev/null 2>&1; o=$?
-echo "demo modified=$m unmodified(/repo build)=$o"
+orig=/verif/.build/target/debug/fselect; [ -x "$out/fselect_orig" ] && orig="$out/fselect_orig"   # the agent's build of the unmodified worktree
+bash "$out/demo.sh" "$orig" >/dev/null 2>&1; o=$?
+echo "demo modified=$m unmodified($orig)=$o"
